@@ -324,6 +324,33 @@ class Crate:
                         for t in self.trait_method_impls(c.fn["trait"], c.path.rsplit("::", 1)[-1]):
                             cg[b.id].add(t)
                             kinds.setdefault((b.id, t), "dyn")
+            # formatting machinery: `{}` / `{:?}` / to_string() of a crate type runs its Display / Debug impl
+            # (not for the message of a panic: blocks from which every path ends in a panic call are skipped)
+            doomed = self._panic_only_blocks(b)
+            refs = [(c.bb, c.callee, c.path, c.full) for c in b.calls]
+            refs += [(bb, nm, (f or {}).get("path", nm), (f or {}).get("rfull") or (f or {}).get("full", "")) for bb, nm, f, _ in b.fn_operands()]
+            for bb, callee, path, full in refs:
+                tr = None
+                if callee.endswith("Argument::<'_>::new_display") or callee.endswith("ToString>::to_string") or path.endswith("ToString::to_string"):
+                    tr = "std::fmt::Display"
+                elif callee.endswith("Argument::<'_>::new_debug"):
+                    tr = "std::fmt::Debug"
+                if tr is None or bb in doomed:
+                    continue
+                ty = None
+                if "::<" in full and full.endswith(">") and "Argument" in full:
+                    ty = full[full.rindex("::<") + 3:-1]
+                elif full.startswith("<") and " as " in full:
+                    ty = full[1:full.index(" as ")]
+                if ty:
+                    ty = ty.lstrip("&").strip()
+                    for wrapper in ("std::sync::Arc<", "std::boxed::Box<", "std::rc::Rc<"):
+                        if ty.startswith(wrapper) and ty.endswith(">"):
+                            ty = ty[len(wrapper):-1]
+                    t = "<%s as %s>::fmt" % (ty, tr)
+                    if t in self.bodies:
+                        cg[b.id].add(t)
+                        kinds.setdefault((b.id, t), "fmt")
             for _, name, _, _ in b.fn_operands():
                 cg[b.id].add(name)
                 kinds.setdefault((b.id, name), "fnitem")
@@ -334,6 +361,31 @@ class Crate:
             for x in bs:
                 r[x].add(a)
         self._rcg = r
+
+    @staticmethod
+    def _panic_only_blocks(b):
+        """blocks from which every path ends in a panic call (the code that only builds a panic message)"""
+        doomed = set()
+        for i, blk in enumerate(b.blocks):
+            t = blk["term"]
+            if t["k"] == "call" and "target" not in t:
+                fn = t["func"].get("fn", {})
+                n = fn.get("resolved") or fn.get("path", "")
+                if n.startswith(("core::panicking::", "std::rt::begin_panic", "std::panicking::")):
+                    doomed.add(i)
+            elif t["k"] == "unreachable":
+                doomed.add(i)
+        changed = True
+        while changed:
+            changed = False
+            for i in range(len(b.blocks)):
+                if i in doomed:
+                    continue
+                ss = b.succ[i]
+                if ss and all(x in doomed for x in ss):
+                    doomed.add(i)
+                    changed = True
+        return doomed
 
     def trait_method_impls(self, trait, method):
         out = []
